@@ -424,6 +424,8 @@ def check_ukfc(meta, h, stats, notes):
             notes["failing_call_belief_not_kept"] = notes.get("failing_call_belief_not_kept", 0) + 1
         if ulik is not None:
             notes["failing_call_likelihood_reported"] = notes.get("failing_call_likelihood_reported", 0) + 1
+        elif meta.get("step", 0) == 0:
+            notes["getLikelihood_without_innovations_returns_false"] = notes.get("getLikelihood_without_innovations_returns_false", 0) + 1
         return [], o, None
     probs = []
     if (xr, xc) != (N, (2 * N + 1) * k):
@@ -640,7 +642,22 @@ def run(ctx):
                 "singular, F/H incl. zero / rank-deficient / triangular, alpha in [0.1, 2], beta, kappa >= 0; skipping state model; failing model "
                 "calls (counted only); non-trivial = more than one input dimension or more than one component; distinct = distinct input lines" % (5 if ctx.quick() else 6),
         "samples": [hl[0][:400], hl[-1][:400]],
-        "branch_histogram": hist, "numeric_max_error_over_tolerance": stats, "notes_not_alarmed": notes,
+        "branch_histogram": hist,
+        "code_branches_hit": {
+            "UKFPrediction::predictStep:is_skipping": sum(v for k_, v in hist.items() if k_.startswith("predict:") and "+skip" in k_),
+            "UKFPrediction::predictStep:Generic (augmented)": sum(v for k_, v in hist.items() if k_.startswith("predict:augmented") and "+skip" not in k_),
+            "UKFPrediction::predictStep:Additive": sum(v for k_, v in hist.items() if k_.startswith("predict:additive") and "+skip" not in k_),
+            "UKFCorrection::correctStep:!valid_measurement": sum(v for k_, v in hist.items() if "+fail1" in k_),
+            "UKFCorrection::correctStep:Generic (augmented)": sum(v for k_, v in hist.items() if k_.startswith("correct:augmented") and "+fail1" not in k_),
+            "UKFCorrection::correctStep:Generic:update_weights_online": sum(v for k_, v in hist.items() if k_.startswith("correct:augmented") and "+online" in k_ and "+fail1" not in k_),
+            "UKFCorrection::correctStep:Additive": sum(v for k_, v in hist.items() if k_.startswith("correct:additive") and "+fail1" not in k_),
+            "UKFCorrection::correctStep:!valid (transform failed)": sum(v for k_, v in hist.items() if "+fail2" in k_),
+            "UKFCorrection::correctStep:!valid_innovation": sum(v for k_, v in hist.items() if "+fail3" in k_),
+            "UKFCorrection::correctStep:update loop": sum(v for k_, v in hist.items() if k_.startswith("correct:") and "+fail" not in k_),
+            "UKFCorrection::getLikelihood:no innovations (false)": notes.get("getLikelihood_without_innovations_returns_false", 0),
+            "UKFCorrection::getLikelihood:density per component": sum(v for k_, v in hist.items() if k_.startswith("correct:") and "+fail" not in k_),
+        },
+        "numeric_max_error_over_tolerance": stats, "notes_not_alarmed": notes,
         "traces_validated_against_impl": len(metas),
         "model_vs_impl_disagreements": len(corr_bad), "property_failures_on_impl": len(prop_bad),
         "sanitizer_crashes": len(logs),
